@@ -185,8 +185,27 @@ def build(reg, src):
            ensures=[lambda s, r: r == If(is_none(s.old.field(s.x0, 'idx_cols')), 0, 1),
                     lambda s, r: is_none(s.st.field(s.x0, 'idx_cols'))])
 
+    # .index(t; cols): the key of the index is the list the user gave - those columns, in THAT order (the major column first)
+    LISTOF = z3.Function('list-of', Obj, Obj)
+
+    def ix_setup(eng, st):
+        mk_table(st, 'x')
+        st.assume(is_none(st.field(st.env['x'], 'idx_cols')))
+        st.env['y'] = VOpaque(hint='y', nonnull=True)
+        st.ghost['index_calls'] = VList([])
+    reg.fns[TB + 'set_index'].ghost_at_call = lambda eng, st, s, r: 'index_calls' in st.ghost and st.ghost.__setitem__('index_calls', VList(st.ghost['index_calls'].items + [s.idx_cols]))
+
+    def ix_post(s, r):
+        calls = s.st.ghost['index_calls'].items
+        if len(calls) != 1 or not isinstance(calls[0], VOpaque):
+            return VBool(False)
+        return VBool(calls[0].t == LISTOF(s.y0.t))
+    reg.fn(DB + 'eval_sys_fn_index', setup=ix_setup, returns='opaque', ensures=[ix_post],
+           loops={0: loop(invariant=[lambda s: VBool(len(s.st.ghost['index_calls'].items) == 0)], havoc=dict(q='opaque'))})
+
     from replay import c19 as rp
     rp.replay_table.timeout_s = 180
+    reg.replays.append((r'eval_sys_fn_index', rp.replay_index_order))
     reg.replays.append((r'#db\.', rp.replay_db_view))                # sub-verification batteries: run proactively by the thorough tier
     reg.replays.append((r'#merge\.', rp.replay_indexed_commit))
     reg.replays.append((r'.', rp.replay_table))
@@ -208,6 +227,12 @@ def configure(eng):
                          VBool(z3.Length(st.field(v, 'buffer').t) == 0), kind='typestate')
         return None
     eng.hooks['getattr:Table'] = getattr_table
+
+    def blist(e, args, kwargs, st, node):
+        if len(args) == 1 and isinstance(args[0], VOpaque) and e.cur_key.endswith('eval_sys_fn_index'):
+            return [(st, VOpaque(z3.Function('list-of', Obj, Obj)(args[0].t), nonnull=True))]
+        return None
+    eng.hooks['builtin:list'] = blist
 
     def setattr_table(e, o, attr, v, st, node):
         if attr == 'buffer' and isinstance(v, VList) and not v.items:
